@@ -38,7 +38,11 @@ impl NetworkAddress {
     /// Create a new `NetworkAddress` from a `SocketAddr`
     #[must_use]
     pub fn new(socket_addr: SocketAddr) -> Self {
-        let four_words = Self::encode_four_words(&socket_addr);
+        // Only publish a word form that decodes back to this very address (the
+        // encoder produces words it cannot decode for some inputs, e.g. port 65535
+        // and most IPv6 addresses).
+        let four_words = Self::encode_four_words(&socket_addr)
+            .filter(|words| Self::decode_four_words(words).ok() == Some(socket_addr));
         Self {
             socket_addr,
             four_words,
@@ -103,11 +107,24 @@ impl NetworkAddress {
 
     /// Decode four-word format to NetworkAddress using four-word-networking
     pub fn from_four_words(words: &str) -> Result<Self> {
-        let enc = FourWordAdaptiveEncoder::new()?;
-        let normalized = words.replace('-', " ");
-        let decoded = enc.decode(&normalized)?; // returns a normalized address string
-        let socket_addr: SocketAddr = decoded.parse()?; // must include port
+        let socket_addr = Self::decode_four_words(words)?;
         Ok(Self::new(socket_addr))
+    }
+
+    /// Decode a four-word form to a socket address.
+    ///
+    /// The four-word-networking decoder indexes out of range on some word
+    /// sequences (including ones its own encoder produced for IPv6); a panic in
+    /// there is reported as a decoding error like any other malformed input.
+    fn decode_four_words(words: &str) -> Result<SocketAddr> {
+        let normalized = words.replace('-', " ");
+        let decoded = std::panic::catch_unwind(move || -> Result<String> {
+            let enc = FourWordAdaptiveEncoder::new()?;
+            Ok(enc.decode(&normalized)?) // returns a normalized address string
+        })
+        .map_err(|_| anyhow!("four-word decoder failed on {words:?}"))??;
+        let socket_addr: SocketAddr = decoded.parse()?; // must include port
+        Ok(socket_addr)
     }
 
     /// Check if this is an IPv4 address
@@ -172,6 +189,14 @@ impl FromStr for NetworkAddress {
                     }
                 }
             }
+        }
+
+        // The library's own rendering (see `Display`): "ip:port (four-words)"
+        if let Some((plain, rest)) = s.split_once(" (")
+            && rest.ends_with(')')
+            && let Ok(socket_addr) = SocketAddr::from_str(plain)
+        {
+            return Ok(Self::new(socket_addr));
         }
 
         // Then try to parse as four-word format
